@@ -71,7 +71,7 @@ def dedup_prefixes(src, dst):
     return n, kept
 
 
-def replay(ctx, gens, label, variants=None, timeout=900, record_rounds=0):
+def replay(ctx, gens, label, variants=None, timeout=900, record_rounds=0, count=True):
     """gens: [(name, TLCResult)] of emitting runs. The prefix-free behaviours of all of them go through one harness run
     (which also records the code -> spec traces when record_rounds > 0; they are validated afterwards).
     Self-test knobs read by the harness: VERIF_CORRUPT_REPLAY=val|e (one expected output), VERIF_CORRUPT_TRACE=final|in|ok (one logged field)."""
@@ -112,13 +112,18 @@ def replay(ctx, gens, label, variants=None, timeout=900, record_rounds=0):
         tot[k] = tot.get(k, 0) + v
     ctx.extra["transitions_covered_by_replay"] = ctx.extra.get("transitions_covered_by_replay", 0) + ntrans
     recorded = ex.pop("recorded", None)
+    before = (ctx.traces, ctx.evaluations, ctx.nontrivial)
     ctx.absorb(res, label)          # replay mismatches are violations whatever the validator says
+    if not count:                   # documentation configs: compared like the rest, but not C07 evidence
+        ctx.extra["replays_outside_quantifier_" + label] = ctx.traces - before[0]
+        ctx.traces, ctx.evaluations, ctx.nontrivial = before
+        ctx.extra["transitions_covered_by_replay"] -= ntrans
     if trace:
         validate_recorded(ctx, trace, recorded)
 
 
-def tlc(ctx, label, sub, timeout, coverage=False):
-    r = ctx.tlc("kvcas", "KVCas", cfg="MC.cfg", subst=sub, timeout=timeout, coverage=coverage, deadlock=False,
+def tlc(ctx, label, sub, timeout, coverage=False, count=True):
+    r = ctx.tlc("kvcas", "KVCas", cfg="MC.cfg", subst=sub, timeout=timeout, coverage=coverage, deadlock=False, count=count,
                 workers=int(os.environ.get("VERIF_TLC_WORKERS", "8")))
     ctx.require_tlc_ok(r, label)
     m = re.search(r"Finished computing initial states: (\d+) distinct state", r.log)
@@ -206,8 +211,8 @@ def run(ctx):
         #    Consul and etcd mocks do with it is replayed on the real clients like everything else; on that model TLC
         #    finds that a successful write need no longer be computed from the value it replaces (etcd mock: Version
         #    restarts at 1 = ABA; Consul mock: an absent key accepts any index).
-        r = tlc(ctx, "gen delete", subst(2, 2, 0, True, backends='{"consul", "etcd"}', delete=True, inv=""), timeout=600)
-        replay(ctx, [("delete", r)], "delete", variants="consul/bare,etcd/bare")
+        r = tlc(ctx, "gen delete", subst(2, 2, 0, True, backends='{"consul", "etcd"}', delete=True, inv=""), timeout=600, count=False)
+        replay(ctx, [("delete", r)], "delete", variants="consul/bare,etcd/bare", count=False)
         for be in ("etcd", "consul"):
             ra = ctx.tlc("kvcas", "KVCas", cfg="MC.cfg", timeout=300, deadlock=False, count=False, workers=4,
                          subst=subst(2, 2, 0, False, backends='{"%s"}' % be, delete=True, inv="SawCurrent"))
